@@ -19,6 +19,9 @@ Wants_L   == IssueBT_L \cup AcctBT_L \cup {Ref({"F"}, "S"), Ref({"F"}, "I"), Ref
               Ref({"E"}, "R"), Ref({"E", "F"}, "Account")}
 GetWants_S == {Ref({}, "I"), Ref({"E"}, "S")}
 GetWants_T == {Ref({}, "S")}
+VTypes_T == {"S"}
 VTypes_S == {"S", "R"}
 VTypes_L == {"S", "S2", "R"}
+\* the bounds of the configuration in use, printed once for the replay driver
+ASSUME PrintT(ToJson([config |-> [accts |-> Accts, spaths |-> SPaths, ppaths |-> PPaths, maxCtrl |-> MaxCtrl, wants |-> Wants]]))
 ====
